@@ -127,4 +127,14 @@ theorem zck_unzck_roundtrip (H : Format.HashFn) (D : Decomp) (cfg : Cfg) (hl : L
   rw [hc, hflat] at this
   exact this
 
+/-! non-vacuity (test): the hypotheses are met by the default configuration, the "none" backend and the example checksum
+function; for the input `[1,2,3] ++ [9,8]` read in two blocks the chunker model closes the single chunk `[1,2,3,9,8]` -/
+example : ∃ chunks, closeChunks { manual := false, chunkMin := 0, chunkMax := 0 } (zckOps [] [[1, 2, 3], [9, 8]]) = some chunks := by
+  obtain ⟨chunks, h, _⟩ := zck_unzck_roundtrip exH exD { manual := false, chunkMin := 0, chunkMax := 0 } ⟨by decide, by decide⟩ rfl rfl [] [[1, 2, 3], [9, 8]]
+    (fun _ p => p) 3 3 0 16 16 false [] (Or.inl rfl) (fun h => absurd rfl h) rfl rfl exH_len
+  exact ⟨chunks, h⟩
+
+example : closeChunks { manual := false, chunkMin := 0, chunkMax := 0 } (zckOps [] [[1, 2, 3], [9, 8]]) = some [[1, 2, 3, 9, 8]] := by
+  decide +kernel
+
 end Zck.ToolsP
